@@ -11,6 +11,7 @@ whole-decoder independence of chunking is observed by the harness under random s
 import ThriftVerif.Schema.StreamProofs
 import ThriftVerif.Schema.EncodeProofs
 import ThriftVerif.Schema.LazyRefine
+import ThriftVerif.Schema.LazyStream
 
 namespace ThriftVerif.Properties.C04
 open ThriftVerif.Wire ThriftVerif.Schema
@@ -50,6 +51,26 @@ theorem real_paths_agree_on_valid_input (env : Env) (fuel : Nat) (t : Ty) (bs : 
     valuePath env fuel t bs = .ok (g, (rest, 0)) ∧ decodeS env fuel t bs = .ok (g, rest) :=
   ⟨lazy_refines_strict env fuel t bs w rest g hd hf,
    ThriftVerif.Schema.stream_accepts_what_value_path_accepts env fuel _ t bs w rest g hd hf⟩
+
+/-- On EVERY byte string — valid encoding or not — the two real paths never return different
+values and never end at different places: whenever lazy `Decode` + `FromWire` and the streaming
+`Decode` both succeed, the values are equal and the same bytes were consumed. (Which of the two
+accepts an invalid input may differ: see the two permissiveness witnesses.) -/
+theorem real_paths_never_differ (env : Env) (fuel : Nat) (t : Ty) (bs : Bytes) (g g' : GVal) (s1 : St)
+    (r' : Bytes) (h1 : valuePath env fuel t bs = .ok (g, s1)) (h2 : decodeS env fuel t bs = .ok (g', r')) :
+    g = g' ∧ s1 = (r', 0) :=
+  ThriftVerif.Schema.real_paths_never_differ env fuel t bs g g' s1 r' h1 h2
+
+/-- Non-vacuity of `real_paths_never_differ` on an input that is NOT a valid encoding for the
+schema: a list field whose element type does not match (so it is never forced) and an unknown
+field — both real paths succeed (and, by the theorem, agree). -/
+example :
+    let env : Env := { structs := [⟨"S", .struct,
+      [⟨1, "A", "a", true, false, false, none, .i32⟩,
+       ⟨3, "C", "c", false, false, false, none, .list .string⟩]⟩] }
+    let bs : Bytes := [8, 0, 1, 0, 0, 0, 5, 15, 0, 3, 8, 0, 0, 0, 1, 0, 0, 0, 9, 11, 0, 77, 0, 0, 0, 1, 65, 0]
+    (valuePath env 50 (.struct "S") bs).toBool = true ∧ (decodeS env 50 (.struct "S") bs).toBool = true := by
+  decide
 
 /-- Outside the valid encodings the real value path is more permissive than the streaming path
 (finding D22's mechanism): a list whose declared element type does not match is never forced,
